@@ -97,21 +97,31 @@ def _parse_retry_after(value: str) -> float | None:
     except ValueError:
         try:
             parsed = parsedate_to_datetime(raw)
-        except (TypeError, ValueError, IndexError):
+        except (TypeError, ValueError, IndexError, OverflowError):
             return None
         if parsed is None:
             return None
         if parsed.tzinfo is None:
             parsed = parsed.replace(tzinfo=UTC)
-        delta = (parsed - datetime.now(UTC)).total_seconds()
+        try:
+            delta = (parsed - datetime.now(UTC)).total_seconds()
+        except OverflowError:
+            return None
         return max(0.0, delta)
-    return max(0.0, float(seconds))
+    try:
+        return max(0.0, float(seconds))
+    except OverflowError:
+        # more digits than a float can hold: treat as no usable hint
+        return None
 
 
 def _coerce_retry_after(exc: BaseException) -> float | None:
     direct = getattr(exc, "retry_after", None)
     if isinstance(direct, int | float):
-        return max(0.0, float(direct))
+        try:
+            return max(0.0, float(direct))
+        except OverflowError:
+            pass
     if isinstance(direct, str):
         parsed = _parse_retry_after(direct)
         if parsed is not None:
